@@ -84,7 +84,7 @@ def main(argv):
             fired = r.returncode == 1 and ("VIOLATION property=%s" % c) in r.stdout
             what = [l.strip() for l in r.stdout.split("\n") if l.startswith("  what:")][:2]
             inc = [l for l in r.stdout.split("\n") if l.startswith("INCONCLUSIVE")][:1]
-            meta["checks"][c] = {"tier": tier, "caught": fired, "exit": r.returncode, "wall_s": round(time.time() - t, 1),
+            meta["checks"][c if tier == "quick" else c + ":" + tier] = {"tier": tier, "caught": fired, "exit": r.returncode, "wall_s": round(time.time() - t, 1),
                                  "first_reports": [w[:400] for w in what] or [x[:400] for x in inc]}
             print("%s vs %s: %s (exit %d, %.0fs) %s" % (name, c, "CAUGHT" if fired else "MISSED", r.returncode, time.time() - t, (what or inc or [""])[0][:200]), flush=True)
         ok = meta["demo_exit_on_pristine_tree"] == 0 and meta["demo_exit_with_change"] != 0 and \
